@@ -9,7 +9,7 @@ from ..common import Result
 ID = "C05"
 LEVEL = "exploration"
 WORLDS = [(1, "san")]
-BUDGET = {"quick": dict(cases=1500), "thorough": dict(cases=30000)}
+BUDGET = {"quick": dict(cases=3000), "thorough": dict(cases=90000)}
 MIN_NONTRIVIAL = {"quick": 2000, "thorough": 30000}
 BLOB = (300, 900)
 RULE = ("Hypothesis byte-backed generator: one command with 1-4 variables, the BUF_HEX / BUF_STRING target (data_size 1-64, RW or WO) "
